@@ -1,6 +1,6 @@
 //! C09 — error correction never reports success on a word that is not a codeword.
 use crate::ctx::{guard, Case, Ctx};
-use crate::gen::rswords::{add_vanishing, add_with_roots, apply, pattern, random_root_set, valid_codeword};
+use crate::gen::rswords::{add_vanishing, add_virtual_error, add_with_roots, apply, pattern, random_root_set, valid_codeword};
 use crate::json::{hex, J};
 use crate::refimpl::cat::{self, Row, CAT};
 use crate::refimpl::gf::{first_bad_block, Rs};
@@ -54,7 +54,22 @@ pub fn eval(ctx: &mut Ctx, r: &Row, rs: &Rs, word: &[u8], tag: &str) {
 
 pub fn gen_word(ctx: &mut Ctx, r: &Row, rs: &Rs, kind: usize) -> (Vec<u8>, &'static str) {
     let (t, k) = (r.k() / 2, r.k());
-    match kind % 7 {
+    match kind % 8 {
+        7 => {
+            // error location at or beyond the end of the block (virtual position), alone or with real errors
+            let mut cw = valid_codeword(&mut ctx.rng, r, rs, 3);
+            let b = ctx.rng.below(r.blocks);
+            let n = r.block_positions(b).len();
+            let p = if ctx.rng.chance(1, 2) { n } else { ctx.rng.range(n, 254) };
+            let e = 1 + ctx.rng.below(255) as u8;
+            add_virtual_error(r, rs, &mut cw, b, p, e);
+            if ctx.rng.chance(1, 2) {
+                let w: Vec<usize> = (0..r.blocks).map(|x| if x == b { ctx.rng.range(1, t) } else { 0 }).collect();
+                let pat = pattern(&mut ctx.rng, r, &w);
+                cw = apply(&cw, &pat);
+            }
+            (cw, "virtual_error_position_ge_n")
+        }
         6 => {
             let mut cw = valid_codeword(&mut ctx.rng, r, rs, 3);
             let b = ctx.rng.below(r.blocks);
